@@ -1,5 +1,5 @@
 (* C11: radial polynomials R_n^m - bounded checks in exact rational arithmetic (kernel evaluation,
-   about 11 s; kept in its own file). *)
+   about 25 s; kept in its own file). *)
 From LV Require Import Model.Zernike Proofs.ZernikeP.
 
 (* the code's factorial quotient is the integer (-1)^k C(n-k,k) C(n-2k,(n-m)/2-k) *)
@@ -27,19 +27,124 @@ Proof.
   - rewrite Z.abs_neq in H2 by lia. rewrite Z.opp_involutive in H2. apply Qc_eq_bool_correct. exact H2.
 Qed.
 
-(* radial orthogonality with weight rho on [0,1], the integral taken by the power rule *)
-Definition orth_ok (N : Z) (n m : Z) : bool :=
-  forallb (fun n' => negb (valid_nm n' m) ||
-     Qc_eq_bool (pinner (radial_terms m n) (radial_terms m n'))
-                (if n =? n' then (1 / zQ (2 * (n + 1)))%Qc else 0%Qc)) (zrange N).
-Lemma orth_checked : all_nm 21 (orth_ok 21) = true.
+(* radial orthogonality with weight rho on [0,1], the integral taken by the power rule.
+   Instead of integrating every pair (n, n') the kernel evaluates, for each admissible (n, m) with
+   n <= 50, the moments of R_n^m against rho^(m+2s), s < (n-m)/2 (all zero: R_n^m is orthogonal to every
+   lower-degree polynomial rho^m q(rho^2)) and its norm; orthogonality of the pairs follows by bilinearity. *)
+(* ---- sums over lists in Qc ---- *)
+Definition qsum {A} (f : A -> Qc) (l : list A) : Qc := fold_right (fun x a => (f x + a)%Qc) 0%Qc l.
+Lemma qsum_cons {A} (f : A -> Qc) x l : qsum f (x :: l) = (f x + qsum f l)%Qc. Proof. reflexivity. Qed.
+Lemma qsum_nil {A} (f : A -> Qc) : qsum f [] = 0%Qc. Proof. reflexivity. Qed.
+Lemma fold_left_qsum {A} (f : A -> Qc) l : forall a, fold_left (fun acc x => (acc + f x)%Qc) l a = (a + qsum f l)%Qc.
+Proof. induction l as [|x l IH]; intros a; cbn [fold_left]; rewrite ?qsum_cons, ?qsum_nil.
+  - ring. - rewrite IH. ring. Qed.
+Lemma qsum_ext {A} (f g : A -> Qc) l : (forall x, In x l -> f x = g x) -> qsum f l = qsum g l.
+Proof. induction l as [|x l IH]; intros H; [reflexivity|]. rewrite !qsum_cons, H by (now left). rewrite IH; [reflexivity|].
+  intros; apply H; now right. Qed.
+Lemma qsum_zero {A} (f : A -> Qc) l : (forall x, In x l -> f x = 0%Qc) -> qsum f l = 0%Qc.
+Proof. induction l as [|x l IH]; intros H; [reflexivity|]. rewrite qsum_cons, H by (now left). rewrite IH; [ring|].
+  intros; apply H; now right. Qed.
+Lemma qsum_add {A} (f g : A -> Qc) l : qsum (fun x => (f x + g x)%Qc) l = (qsum f l + qsum g l)%Qc.
+Proof. induction l as [|x l IH]; rewrite ?qsum_cons, ?qsum_nil; [ring|]. rewrite IH. ring. Qed.
+Lemma qsum_scale {A} (c : Qc) (f : A -> Qc) l : qsum (fun x => (c * f x)%Qc) l = (c * qsum f l)%Qc.
+Proof. induction l as [|x l IH]; rewrite ?qsum_cons, ?qsum_nil; [ring|]. rewrite IH. ring. Qed.
+Lemma qsum_swap {A B} (g : A -> B -> Qc) p q :
+  qsum (fun t => qsum (fun u => g t u) q) p = qsum (fun u => qsum (fun t => g t u) p) q.
+Proof. induction p as [|t p IH].
+  - rewrite qsum_nil. symmetry. apply qsum_zero. reflexivity.
+  - rewrite qsum_cons, IH, <- qsum_add. apply qsum_ext. intros u _. rewrite qsum_cons. reflexivity. Qed.
+
+(* moment of p against x^b with weight x on [0,1], by the power rule *)
+Definition pmoment (p : list (Z * Qc)) (b : Z) : Qc :=
+  fold_left (fun acc t => (acc + snd t / zQ (fst t + b + 2))%Qc) p 0%Qc.
+
+Lemma pinner_qsum p q :
+  pinner p q = qsum (fun t : Z * Qc => qsum (fun u : Z * Qc => (snd t * snd u / zQ (fst t + fst u + 2))%Qc) q) p.
+Proof.
+  unfold pinner.
+  assert (H : forall a, fold_left (fun acc (t : Z * Qc) => fold_left (fun acc' (u : Z * Qc) =>
+     (acc' + snd t * snd u / zQ (fst t + fst u + 2))%Qc) q acc) p a
+     = (a + qsum (fun t : Z * Qc => qsum (fun u : Z * Qc => (snd t * snd u / zQ (fst t + fst u + 2))%Qc) q) p)%Qc).
+  { induction p as [|t p IH]; intros a; cbn [fold_left]; rewrite ?qsum_cons, ?qsum_nil.
+    { ring. }
+    rewrite IH, (fold_left_qsum (fun u : Z * Qc => (snd t * snd u / zQ (fst t + fst u + 2))%Qc)). ring. }
+  rewrite H. ring.
+Qed.
+Lemma pmoment_qsum p b : pmoment p b = qsum (fun t : Z * Qc => (snd t / zQ (fst t + b + 2))%Qc) p.
+Proof. unfold pmoment. rewrite (fold_left_qsum (fun t : Z * Qc => (snd t / zQ (fst t + b + 2))%Qc)). ring. Qed.
+
+(* the inner product is the combination of the moments of p against the powers of q *)
+Lemma pinner_by_moments p q : pinner p q = qsum (fun u : Z * Qc => (snd u * pmoment p (fst u))%Qc) q.
+Proof.
+  rewrite pinner_qsum, qsum_swap. apply qsum_ext. intros u _. rewrite pmoment_qsum, <- qsum_scale.
+  apply qsum_ext. intros t _. unfold Qcdiv. ring.
+Qed.
+Lemma pinner_sym p q : pinner p q = pinner q p.
+Proof. rewrite !pinner_qsum, qsum_swap. apply qsum_ext. intros u _. apply qsum_ext. intros t _.
+  replace (fst u + fst t + 2) with (fst t + fst u + 2) by ring. unfold Qcdiv. ring. Qed.
+
+(* the check, per (n, m): R_n^m is orthogonal to rho^(m+2s), s < (n-m)/2, and its norm is 1/(2(n+1)) *)
+Definition moments_ok (n m : Z) : bool :=
+  let p := radial_terms m n in
+  forallb (fun s => Qc_eq_bool (pmoment p (m + 2 * s)) 0%Qc) (zrange ((n - m) / 2))
+  && Qc_eq_bool (rcoef m n 0 * pmoment p n)%Qc (1 / zQ (2 * (n + 1)))%Qc.
+Lemma moments_checked : all_nm 51 moments_ok = true.
 Proof. vm_cast_no_check (eq_refl true). Qed.
-Theorem radial_orthogonality m n n' : 0 <= m -> m <= n <= 20 -> m <= n' <= 20 ->
+
+Lemma radial_moments n m : 0 <= m <= n -> n <= 50 -> Z.even (n - m) = true ->
+  (forall s, 0 <= s < (n - m) / 2 -> pmoment (radial_terms m n) (m + 2 * s) = 0%Qc) /\
+  (rcoef m n 0 * pmoment (radial_terms m n) n)%Qc = (1 / zQ (2 * (n + 1)))%Qc.
+Proof.
+  intros Hm Hn He. pose proof (all_nm_sound _ _ moments_checked n m Hm ltac:(lia) He) as H.
+  unfold moments_ok in H. apply andb_true_iff in H. destruct H as [H1 H2]. split.
+  - intros s Hs. apply Qc_eq_bool_correct. apply (forallb_zrange _ _ H1 s). lia.
+  - apply Qc_eq_bool_correct. exact H2.
+Qed.
+
+Lemma radial_terms_In m n u : In u (radial_terms m n) ->
+  exists k, 0 <= k <= (n - m) / 2 /\ u = (n - 2 * k, rcoef m n k).
+Proof. unfold radial_terms. intros H. apply in_map_iff in H. destruct H as [k [<- Hk]].
+  apply zrange_In in Hk. exists k. split; [lia|reflexivity]. Qed.
+Lemma radial_terms_head m n : 0 <= (n - m) / 2 ->
+  radial_terms m n = (n, rcoef m n 0) :: map (fun k => (n - 2 * k, rcoef m n k)) (map Z.of_nat (seq 1 (Z.to_nat ((n - m) / 2)))).
+Proof. intros H. unfold radial_terms, zrange.
+  replace (Z.to_nat ((n - m) / 2 + 1)) with (Datatypes.S (Z.to_nat ((n - m) / 2))) by lia.
+  cbn [seq map]. replace (n - 2 * Z.of_nat 0) with n by (cbn; ring). reflexivity. Qed.
+
+Lemma pinner_lower m n n' : 0 <= m <= n' -> n' < n -> n <= 50 ->
+  Z.even (n - m) = true -> Z.even (n' - m) = true ->
+  pinner (radial_terms m n) (radial_terms m n') = 0%Qc.
+Proof.
+  intros Hm Hlt Hn He He'. rewrite pinner_by_moments. apply qsum_zero. intros u Hu.
+  apply radial_terms_In in Hu. destruct Hu as [k [Hk ->]]. cbn [fst snd].
+  destruct (radial_moments n m ltac:(lia) Hn He) as [Hz _].
+  apply even_ex in He. destruct He as [a Ha]. apply even_ex in He'. destruct He' as [b Hb].
+  replace (n' - 2 * k) with (m + 2 * (b - k)) by lia. rewrite Hz by lia. ring.
+Qed.
+
+Theorem radial_orthogonality m n n' : 0 <= m -> m <= n <= 50 -> m <= n' <= 50 ->
   Z.even (n - m) = true -> Z.even (n' - m) = true ->
   pinner (radial_terms m n) (radial_terms m n') = if n =? n' then (1 / zQ (2 * (n + 1)))%Qc else 0%Qc.
 Proof.
-  intros Hm Hn Hn' He He'. pose proof (all_nm_sound _ _ orth_checked n m ltac:(lia) ltac:(lia) He) as H.
-  unfold orth_ok in H. pose proof (forallb_zrange _ _ H n' ltac:(lia)) as H1. cbv beta in H1.
-  unfold valid_nm in H1. rewrite He' in H1. replace ((0 <=? m) && (m <=? n')) with true in H1 by lia.
-  apply Qc_eq_bool_correct. exact H1.
+  intros Hm Hn Hn' He He'. destruct (Z.eqb_spec n n') as [<-|Hne].
+  - rewrite pinner_by_moments.
+    destruct (radial_moments n m ltac:(lia) ltac:(lia) He) as [Hz Hnorm].
+    assert (Hd : 0 <= (n - m) / 2) by lia.
+    set (f := fun u : Z * Qc => (snd u * pmoment (radial_terms m n) (fst u))%Qc).
+    rewrite (radial_terms_head m n Hd), qsum_cons. subst f. cbv beta. cbn [fst snd]. rewrite Hnorm.
+    match goal with |- (_ + ?r)%Qc = _ => replace r with 0%Qc; [ring|] end.
+    symmetry. apply qsum_zero. intros u Hu. apply in_map_iff in Hu. destruct Hu as [k [<- Hk]].
+    apply in_map_iff in Hk. destruct Hk as [k0 [<- Hk0]]. apply in_seq in Hk0. cbn [fst snd].
+    pose proof (even_ex _ He) as [a Ha].
+    replace (n - 2 * Z.of_nat k0) with (m + 2 * (a - Z.of_nat k0)) by lia. rewrite Hz by lia. ring.
+  - destruct (Z_lt_le_dec n' n).
+    + apply pinner_lower; try assumption; lia.
+    + rewrite pinner_sym. apply pinner_lower; try assumption; lia.
 Qed.
+
+(* the moment is the inner product with a monomial *)
+Lemma pinner_monomial p b : pinner p [(b, 1%Qc)] = pmoment p b.
+Proof. rewrite pinner_by_moments, qsum_cons, qsum_nil. cbn [fst snd]. ring. Qed.
+Theorem radial_lower_moments m n s : 0 <= m <= n -> n <= 50 -> Z.even (n - m) = true -> 0 <= s < (n - m) / 2 ->
+  pinner (radial_terms m n) [(m + 2 * s, 1%Qc)] = 0%Qc.
+Proof. intros Hm Hn He Hs. rewrite pinner_monomial. apply (proj1 (radial_moments n m Hm Hn He)). exact Hs. Qed.
